@@ -17,7 +17,7 @@ VERIF = R.VERIF
 C11_CARRIERS = {'C03', 'C10', 'C20', 'C17', 'C11'}   # clauses that fix observable results / state
 
 
-def attribute(f, fn_props, prop, shared=()):
+def attribute(f, fn_props, prop, shared=(), unit=None):
     """Does failure f count against property prop?"""
     if prop == 'C11':
         # C11 = both flavours satisfy the same (functional) contract: any failing observable clause of a
@@ -31,6 +31,10 @@ def attribute(f, fn_props, prop, shared=()):
     if f['kind'].startswith('possible arithmetic') or f['kind'].startswith('possible bit shift') or f['kind'].startswith('possible division'):
         if props is None:
             return prop == 'C04'
+        if prop == 'C04' and unit in ('U_unsync', 'U_sync'):
+            # every function of the arena units is reachable from an allocation call (the slow paths release leftovers
+            # through dealloc / try_new_segment / the list helpers): wrapping size arithmetic anywhere there breaks C04
+            return True
         return prop == 'C04' if 'C04' in props else prop in props
     if props is None:
         return True     # unlabeled failure in a hand-written lemma: undecided for everyone using the unit
@@ -124,7 +128,7 @@ def run_property(prop, pc, kf, tier, seed, sc, t0):
                 if m.get('contract_file') and 'C11' not in m['props']:
                     m['props'].append('C11')
             fn_props = {m['function']: m['props'] for m in bv['metas']}
-        mine = [f for f in sem if attribute(f, fn_props, prop, shared)]
+        mine = [f for f in sem if attribute(f, fn_props, prop, shared, bv['unit'])]
         for m in bv['metas']:
             if prop in m['props']:
                 functions_under_contract.append({k: m[k] for k in ('function', 'file', 'first_line', 'last_line', 'sha256_16', 'profile', 'rules')})
